@@ -468,6 +468,21 @@ def fam_c20(tier, seed):
         sc["tags"] = ["pool", "drop-while-held", "queued-behind-held", "demote", "queued:%d" % nq]
         scs.append(sc)
         k += 1
+    # (b4) the held request is the LAST one of its connection and its body is streamed (the connection thread is
+    #      finished with the connection except for that body): drop, refusal of new connections, late answer
+    for nheld, other in itertools.product([1, 2, 5], [0, 2]):
+        for tag, kw in (("cl5000", dict(framing="cl", body_len=5000)), ("ch2000", dict(framing="chunked", body_len=2000, chunks=[2000])),
+                        ("expect5", dict(framing="cl", body_len=5, expect="100-continue"))):
+            for ver, cn in (("1.1", "close"), ("1.0", None)):
+                if (ver == "1.0" and tag != "cl5000"):
+                    continue
+                cc = [conn([Msg(method="POST", version=ver, conn=cn, plan=respond(200, 6, wait_phase=2), **kw)], c) for c in range(nheld)]
+                cc += [simple_conn(nheld + i, 1, at_ns=1 * MS) for i in range(other)]
+                sc = scenario("C20-%04d" % k, "C20", cc, [serve("recv", "spawn"), serve("recv", "spawn")], horizon_ms=200, single=False,
+                              drop_server_early=True, connect_after_drop=2)
+                sc["tags"] = ["pool", "drop-while-held", "held-last-request", tag, "v%s/%s" % (ver, cn), "n:%d+%d" % (nheld, other)]
+                scs.append(sc)
+                k += 1
     # (c) plain drop with idle / open connections
     for n in [0, 1, 4, 6]:
         cc = [simple_conn(c, 1) for c in range(n)]
@@ -514,6 +529,9 @@ def fam_c01(tier, seed, prop="C01"):
     plans = _answer_plans(prop)
     names = sorted(plans)
     plans.update(_failing_plans())
+    # a raw writer whose first operation is a write of nothing (e.g. write_all of an empty head fragment)
+    plans["we1"] = lambda: {"ans": {"how": "writer", "status": 200, "parts": [30], "flush": "last", "empty_first": True}}
+    plans["we2n"] = lambda: {"ans": {"how": "writer", "status": 200, "parts": [5, 2000], "flush": "never", "empty_first": True}}
     scs = []
     k = 0
     prods = []
@@ -524,7 +542,8 @@ def fam_c01(tier, seed, prop="C01"):
         # the shapes behind F1 are always present
         prods += [("r5", "w0", "r5"), ("r1025", "w0", "w2n"), ("w0", "r5"), ("r5", "w0"), ("r5", "wf1"), ("r1025", "wf1", "r5"), ("w2f", "wf1")]
     # longer pipelines: several writers in a row that never write before they are dropped
-    prods += [("r5", "wv2f"), ("r1025", "wv1n", "r5"), ("w2f", "wv2f"), ("rbig", "wv2f", "wv1n"),
+    prods += [("r5", "we1"), ("r1025", "we1", "r5"), ("w2f", "we2n"), ("rbig", "we2n", "we1"), ("rundecl", "we1"),
+              ("r5", "wv2f"), ("r1025", "wv1n", "r5"), ("w2f", "wv2f"), ("rbig", "wv2f", "wv1n"),
               ("r5", "w0", "w0", "r5"), ("r1025", "w0", "w0", "w2f"), ("w1f", "w0", "w0", "w0", "r5"), ("r5", "w0", "drop", "w0", "r5"), ("rbig", "w0", "w0", "rundecl")]
     # a response whose body reader fails part-way, at every position
     prods += [("rfe3",), ("rfp0",), ("rfe700", "r5"), ("rfp3", "r5"), ("r5", "rfe0", "r5"), ("r5", "rfp700", "w1f"), ("w2f", "rfe700", "drop"),
@@ -535,7 +554,7 @@ def fam_c01(tier, seed, prop="C01"):
     for combo in prods:
         ordered = any(a == "w0" and b in ("w0", "drop") for a, b in zip(combo, combo[1:]))   # order-sensitive shapes
         for mode in ("spawn", "inline", "spawn0"):
-            if mode == "spawn0" and not ordered and not (len(combo) <= 3 and any(n_ in ("w2f", "w2n", "w3l", "rbig", "rundecl", "r1025", "wf1", "wv2f", "wv1n") for n_ in combo)):
+            if mode == "spawn0" and not ordered and not (len(combo) <= 3 and any(n_ in ("w2f", "w2n", "w3l", "rbig", "rundecl", "r1025", "wf1", "wv2f", "wv1n", "we1", "we2n") for n_ in combo)):
                 continue
             if mode == "spawn":
                 # answer in a permuted order: delays are a permutation of 0, 1 ms, 2 ms ... (one random permutation; for
@@ -657,6 +676,9 @@ def _body_variants(tier):
         ("ch2000", dict(framing="chunked", body_len=2000, chunks=[700, 1, 1299])),
         ("ch1024ext", dict(framing="chunked", body_len=1024, chunks=[1000, 24], chunk_opts=dict(hexcase="upper", lead0=2, ext=";x=y"))),
         ("ch0", dict(framing="chunked", body_len=0)),
+        # the name of a transfer coding is case-insensitive
+        ("ch2000-Cap", dict(framing="chunked", body_len=2000, chunks=[1300, 700], te_value="Chunked")),
+        ("ch5-UPPER", dict(framing="chunked", body_len=5, chunks=[2], te_value="CHUNKED")),
     ]
     if tier == "thorough":
         v += [("cl4096", dict(framing="cl", body_len=4096)), ("cl70000", dict(framing="cl", body_len=70000)),
@@ -788,6 +810,15 @@ def fam_c03(tier, seed):
             sc["tags"] = ["framing", "upgrade", "n:%d" % n, "conn:" + cv]
             scs.append(sc)
             k += 1
+    # an upgrade request that also declares a length: the body is still the rest of the connection, the declared length is reported
+    for n, cl, cv in ((0, "0", "upgrade"), (700, "0", "upgrade"), (700, "5", "Upgrade"), (3000, "0", "keep-alive, Upgrade"), (5, "700", "upgrade")):
+        for name in ("Content-Length", "content-length"):
+            up = Msg(conn=cv, framing="upgrade", body_len=n, extra_headers=[("Upgrade", "verif"), (name, cl)], plan={"ans": {"how": "upgrade", "len": 10}})
+            d, j, ln = conn([up], 0)
+            sc = scenario("C03-%04d" % k, "C03", [(d, j, ln)], _single_app(), horizon_ms=100)
+            sc["tags"] = ["framing", "upgrade", "declared-length:" + cl, "n:%d" % n, "conn:" + cv]
+            scs.append(sc)
+            k += 1
     return scs
 
 def fam_c11(tier, seed):
@@ -838,11 +869,15 @@ def fam_c11(tier, seed):
             scs.append(sc)
             k += 1
     # the body is read to its end with one of std's helpers and the request is then kept: the successor must arrive
-    for helper in ("read_to_end", "read_to_string", "copy"):
-        for first in ("b1025", "chunked", "b1024"):
+    # (also: a buffer sized by the declared length, read_exact of the declared length and one more read, single bytes --
+    #  reads that are never larger than what is left of the body)
+    for helper in ("read_to_end", "read_to_string", "copy", "read_to_end_sized", "read_exact", "bytes"):
+        for first in ("b1025", "chunked", "b1024", "b5000"):
+            if first == "chunked" and helper in ("read_to_end_sized", "read_exact"):
+                continue
             for nfollow in (1, 2):
-                msgs = [kinds[first]()] + [Msg() for _ in range(nfollow)]
-                msgs[0].plan = dict(keep(), read_std=helper)
+                msgs = [kinds[first]() if first != "b5000" else Msg(method="POST", framing="cl", body_len=5000)] + [Msg() for _ in range(nfollow)]
+                msgs[0].plan = dict(keep(), read_std=helper) if helper != "bytes" else _with_read(keep(), sizes=[1], to_eof=True)
                 d, j, ln = conn(msgs, 0)
                 sc = scenario("C11-%04d" % k, "C11", [(d, j, ln)], [{"prog": [{"op": "serve", "kind": "recv", "mode": "inline", "max_empty": 1, "ms": 0}]}], horizon_ms=100)
                 sc["tags"] = ["readahead", "std-read-helper", helper, "pipe:" + first + "+none" * nfollow]
@@ -1369,6 +1404,23 @@ def fam_c15(tier, seed):
                     sc["tags"] = ["vanish", "std-read-helper", helper, tag, "cut:%d" % cut, fault]
                     scs.append(sc)
                     k += 1
+    # real sockets only: a storm of connections that are reset at once (or after a few bytes) -- some of the resets
+    # reach the server before it has accepted the connection -- and afterwards well-behaved clients, which must be served
+    for nstorm in (40, 120):
+        cc = []
+        for c in range(nstorm):
+            raw = [b"", b"GE", b"GET /x HTTP/1.1\r\nHo"][c % 3]
+            d, j, ln = conn([Msg(cls="close", why="C15", raw_head=raw)], c) if raw else conn([Msg(cls="close", why="C15", raw_head=b"G")], c)
+            d["prog"] = ([{"op": "send", "to": len(raw)}] if raw else []) + [{"op": "reset"}]
+            cc.append((d, j, ln))
+        for c in range(nstorm, nstorm + 3):
+            d, j, ln = simple_conn(c, 1, at_ns=(60 + 20 * (c - nstorm)) * MS)
+            cc.append((d, j, ln))
+        sc = scenario("C15-%04d" % k, "C15", cc, _single_app(), horizon_ms=400, single=True, transport="tcp")
+        sc["tags"] = ["vanish", "reset-storm", "n:%d" % nstorm]
+        sc["d2only"] = True
+        scs.append(sc)
+        k += 1
     # the client goes away while responses are being written / never reads
     for size, declared in ((10, True), (3000, True), (70000, True), (5000, False)):
         for when in ("before", "during", "noread"):
